@@ -51,6 +51,11 @@ def _cases(tier):
             yield {"h": [["G", spec]], "cfg": "graph", "merge": merge, "dkr": [r"k\d"]}
     for spec in A.sibling_graph_specs():
         yield {"h": [["G", spec]], "cfg": "graph", "merge": "default", "dkr": [r"k\d"]}
+    # the same value kinds under keys that need an alias / metadata (renamed AND optional AND container defaults)
+    kvals = ["eobj", "elist", "int", "null", A.ABSENT, "O(k:int)", "L(int)", "s_int", "lit_a"]
+    for key in ("userInfo", "class", "1st"):
+        for h in A.histories([["K", key, v] for v in kvals], 2):
+            yield {"h": h, "cfg": "renamed"}
     # merged models whose shared field varies
     for v0 in A.VARIED_ATOMS:
         for v1 in A.VARIED_ATOMS:
@@ -87,6 +92,8 @@ def _field_values(case):
         elif s[0] == "2":
             fv.setdefault("a", set()).add(s[1])
             fv.setdefault("b", set()).add(s[2])
+        elif s[0] == "K":
+            fv.setdefault("*", set()).update({"key:" + s[1], s[2]})
         else:
             fv.setdefault("*", set()).add(A.symbol_name(s))
     return fv
@@ -137,6 +144,11 @@ def _configs(case, tree):
     elif cfg == "ir+pydantic+dc":
         out.append(("pydantic", "flat", dict(base_kw)))
         out.append(("dataclasses", "flat", dict(base_kw)))
+    elif cfg == "renamed":
+        out.append(("pydantic", "flat", dict(base_kw)))
+        out.append(("sqlmodel", "flat", dict(base_kw)))
+        out.append(("attrs", "flat", dict(base_kw, meta=True)))
+        out.append(("dataclasses", "flat", dict(base_kw, meta=True)))
     elif cfg == "graph":
         for fw in ("pydantic", "dataclasses", "base"):
             for lay in layouts:
